@@ -66,6 +66,29 @@ def strip_comments(src):
     return "".join(out)
 
 
+WATCHDOG_S = int(os.environ.get("VERIF_WATCHDOG", "120"))
+
+
+class HangTimeout(BaseException):
+    """the implementation did not return (BaseException: a broad `except Exception` in the library cannot swallow it)"""
+
+
+def run_with_watchdog(prop, s):
+    """one scenario on the implementation; a scenario that takes more than WATCHDOG_S seconds of wall time (ordinary ones
+    take milliseconds) counts as "does not return" """
+    import signal
+
+    def on_alarm(signum, frame):
+        raise HangTimeout()
+    old = signal.signal(signal.SIGALRM, on_alarm)
+    signal.setitimer(signal.ITIMER_REAL, WATCHDOG_S)
+    try:
+        return prop.run_impl(s)
+    finally:
+        signal.setitimer(signal.ITIMER_REAL, 0)
+        signal.signal(signal.SIGALRM, old)
+
+
 def lean_build(pid):
     """regenerate PyTreesGen/<pid>.lean from $VERIF_REPO, then lake build the models, the driver and the modules of THIS
     property (Props/<pid>*.lean with what they import). Caller holds the build lock.
@@ -310,9 +333,17 @@ def run(pid, tier, seed, args, sw):
     cov.start()
     impl = {}
     harness_errors = []
+    hangs = 0
     for s in scns:
+        if hangs >= 3:
+            # the library does not return on this kind of input: what was found is reported, the rest is not run
+            impl[s.name] = None
+            continue
         try:
-            impl[s.name] = prop.run_impl(s)
+            impl[s.name] = run_with_watchdog(prop, s)
+        except HangTimeout:
+            hangs += 1
+            impl[s.name] = ["<no-return: the implementation did not come back within %d s>" % WATCHDOG_S]
         except Exception as e:
             # the implementation side could not even be observed on this scenario (on the unchanged tree this never
             # happens; a changed library can break the reflection): it counts as a divergence from the model
@@ -321,6 +352,7 @@ def run(pid, tier, seed, args, sw):
     cov.stop()
     # scenarios flagged impl_only lie outside the model's domain (e.g. a leaf whose update() returns INVALID): they are
     # run on the implementation under the Python oracle only and never decide the correspondence
+    scns = [s for s in scns if impl[s.name] is not None]
     model = common.run_model([s for s in scns if not s.meta.get("impl_only")])
 
     # -- 4. correspondence + oracles -----------------------------------------------------------
@@ -340,6 +372,12 @@ def run(pid, tier, seed, args, sw):
             divergences.append({"scenario": s.to_json(), "first_difference": {
                 "index": first, "impl": pi[first] if first < len(pi) else None,
                 "model": pm[first] if first < len(pm) else None}})
+        if io and io[0].startswith("<no-return"):
+            # a call of the public API that never returns fails every property that speaks about its result
+            v = {"clause": "no-return", "detail": "the implementation did not return on this scenario (%s)" % io[0],
+                 "sig": {}, "scenario": s.to_json()}
+            violations.append(v)
+            continue
         try:
             vs = prop.oracle(s, io)
         except Exception:
